@@ -7,6 +7,7 @@ import (
 	"fmt"
 	"math"
 	"strings"
+	"sync"
 
 	"github.com/bmeg/grip/kvi"
 	"github.com/bmeg/grip/log"
@@ -38,6 +39,8 @@ func containsPrefix(c string, s []string) bool {
 type KVIndex struct {
 	KV     kvi.KVInterface
 	Fields map[string][]string
+	//fieldLock guards Fields: graphs are added and removed while other graphs are written
+	fieldLock sync.RWMutex
 }
 
 // KVTermCount Get all terms and their counts
@@ -60,7 +63,9 @@ func NewIndex(kv kvi.KVInterface) *KVIndex {
 // AddField add new field to be indexed
 func (idx *KVIndex) AddField(path string) error {
 	fk := FieldKey(path)
+	idx.fieldLock.Lock()
 	idx.Fields[path] = strings.Split(path, ".")
+	idx.fieldLock.Unlock()
 	return idx.KV.Set(fk, []byte{})
 }
 
@@ -71,7 +76,9 @@ func (idx *KVIndex) RemoveField(path string) error {
 	ed := EntryPrefix(path)
 	idx.KV.DeletePrefix(fkt)
 	idx.KV.DeletePrefix(ed)
+	idx.fieldLock.Lock()
 	delete(idx.Fields, path)
+	idx.fieldLock.Unlock()
 	return idx.KV.Delete(fk)
 }
 
@@ -109,7 +116,13 @@ func (idx *KVIndex) AddDocTx(tx kvi.KVBulkWrite, docID string, doc map[string]in
 	sdoc := Doc{Entries: [][]byte{}}
 	docKey := DocKey(docID)
 
+	idx.fieldLock.RLock()
+	fields := make(map[string][]string, len(idx.Fields))
 	for field, p := range idx.Fields {
+		fields[field] = p
+	}
+	idx.fieldLock.RUnlock()
+	for field, p := range fields {
 		x := mapDig(doc, p)
 		if x != nil {
 			term, t := GetTermBytes(x)
